@@ -13,6 +13,7 @@ from ..core import group
 THETA = {"implicit": 1.0, "backwardeuler": 1.0, "trapezoidal": 0.5, "cranknicolson": 0.5}
 TOL_STEP = 1e-5       # x max(1, CFL): floor of a sqrt(eps) finite-difference Jacobian; measured worst 5e-8 (normalised) over 4 seeds
 CFLS = [0.01, 0.1, 1.0, 10.0, 100.0]
+TOL_LARGE = 1e-6      # large linear systems, error / (max|Q| max(1, CFL)); measured worst 3e-9 over 150 cases (an incomplete LU gives 5e-7...4e-5 / CFL)
 
 
 def setup(ctx):
@@ -22,6 +23,13 @@ def setup(ctx):
     ctx.require("solve:gear", "solve:cranknicolson", "solve:implicit")
     ctx.require("step:implicit", "step:cranknicolson", "step:gear", "step:backwardeuler", "step:trapezoidal",
                 "nogrowth", "order:implicit", "order:cranknicolson", "order:gear", "jacobian", "jacobian-conservative")
+
+
+def _qrsolve(M, r):
+    """reference solve by QR factorisation: LU with partial pivoting suffers exponential element growth on some of these (well
+    conditioned) systems -- left-running wave, upwind-biased kappa schemes, CFL 5-10, a few hundred cells (DESIGN 6/D19)"""
+    q, rr = np.linalg.qr(M)
+    return np.linalg.solve(rr, q.T @ r)
 
 
 def operator(disc, model, mesh):
@@ -218,6 +226,46 @@ def trajectory_in_solve(ctx, rng, idx):
         worst = max(worst, err)
         ctx.close("trajectory", err, TOL_STEP, "solve/%s/%s" % (iname, what), {"step": k, "cfl": cfl, "save times / dt": [(t - t0) / dt for t in ts]}, cls=cls)
     ctx.nontrivial("traj", iname, cfl, N, ts, s.desc())
+
+
+@group(quick=5, thorough=60)
+def large_linear_step(ctx, rng, idx):
+    """the linear statement on LARGE systems (1001-1400 unknowns, thorough: up to 2200): a size-dependent path of the linear solve
+    (sparse / banded / iterative above a threshold) is only taken there.  Smooth data, uniform or refined mesh, periodic; judged
+    against numpy's dense solve of the theta / BDF2 system with the operator assembled from the real rhs."""
+    iname = ["implicit", "cranknicolson", "gear", "backwardeuler", "trapezoidal"][idx % 5]
+    r = rng.random()
+    n = int(rng.integers(150, 701)) if r < 0.4 else int(rng.integers(1001, 1401)) if (ctx.tier == "quick" or r < 0.85) else int(rng.integers(2049, 2201))
+    s = gen.scenario1d(rng, mname="convection", recons=["extrapol1", "extrapol2", "extrapol3", "fromm", "quick"], bc="per", meshkinds=["uni", "refined"], ncell=n, dkind="smooth", warm=False)
+    cfl = float(rng.choice([0.5, 2.0, 5.0, 10.0, 50.0]))
+    with probes.quiet():
+        A, b = operator(s.disc, s.model, s.mesh)
+        dt = float(np.min(s.disc.calc_timestep(s.field, cfl)))
+    ctx.describe(integrator=iname, cfl=cfl, unknowns=n, **{k: v for k, v in s.desc().items() if k != "prim"})
+    solver = gen.integ(iname)(s.mesh, s.disc)
+    f = s.field.copy(); Q0 = f.data[0].copy()
+    with probes.quiet():
+        solver.step(f, dt)
+    I = np.eye(n)
+    th = THETA.get(iname, 0.5)
+    exp1 = Q0 + _qrsolve(I / dt - th * A, A @ Q0 + b)
+    sc = (np.max(np.abs(Q0)) + 1e-300) * max(1.0, cfl)
+    e1 = float(np.max(np.abs(f.data[0] - exp1)) / sc)
+    ctx.close("large-step", e1, TOL_LARGE, "large-step/%s/%s" % (iname, "not-theta-scheme" if iname != "gear" else "first-step-not-cranknicolson"), {"unknowns": n, "cfl": cfl}, cls="step:" + iname)
+    worst = e1
+    if iname == "gear":
+        prev = f.data[0].copy(); dprev = prev - Q0
+        for k in range(2):
+            with probes.quiet():
+                solver.step(f, dt)
+            new = f.data[0].copy()
+            expd = _qrsolve(1.5 * I - dt * A, dt * (A @ prev + b) + 0.5 * dprev)
+            e = float(np.max(np.abs((new - prev) - expd)) / ((np.max(np.abs(prev)) + np.max(np.abs(dprev)) + 1e-300) * max(1.0, cfl)))
+            worst = max(worst, e)
+            ctx.close("large-step", e, TOL_LARGE, "large-step/gear/not-bdf2-recurrence", {"k": k, "unknowns": n, "cfl": cfl}, cls="step:gear")
+            dprev, prev = new - prev, new
+    ctx.info["large_step_worst_normalised_error"] = max(ctx.info.get("large_step_worst_normalised_error", 0.0), worst)
+    ctx.nontrivial("large", iname, n, cfl, s.desc())
 
 
 @group(quick=300, thorough=10000)
